@@ -244,17 +244,17 @@ def run(tier, seed, build):
             node = node_at(fn, ev["line"], ev["col"])
             how = b[name]
             lb = latest_binding(fn, accs, name, ev["line"], ev["col"])
-            if isinstance(node, ast.Name) and isinstance(node.ctx, ast.Del):
+            if lb is not None and lb.tags and how not in ("parameter",):
+                cause = "binding-in-position-rattr-does-not-visit"
+            elif how == "assign" and rejected_namedtuple_binding(fn, name, ev["line"] + 1):
+                cause = "bound-by-assign:namedtuple-declaration-rejected"
+            elif lb is not None and how.startswith("walrus") and inside_plugin_scope(pm, lb.node):
+                cause = "bound-by-walrus-inside-defaultdict-factory-expression"
+            elif isinstance(node, ast.Name) and isinstance(node.ctx, ast.Del):
                 cause = "on-the-del-statement-itself"
             elif attr_del_between(fn, name, (lb.node.lineno, lb.node.col_offset) if lb is not None else (0, 0),
                                   (ev["line"], ev["col"])):
                 cause = "after-del-of-attribute-or-item"
-            elif lb is not None and lb.tags and how not in ("parameter",):
-                cause = "binding-in-position-rattr-does-not-visit"
-            elif lb is not None and how.startswith("walrus") and inside_plugin_scope(pm, lb.node):
-                cause = "bound-by-walrus-inside-defaultdict-factory-expression"
-            elif how == "assign" and rejected_namedtuple_binding(fn, name, ev["line"] + 1):
-                cause = "bound-by-assign:namedtuple-declaration-rejected"
             else:
                 cause = "bound-by-" + how
             sig = "spurious-warning:" + cause
